@@ -52,7 +52,7 @@ def gen_case(rng, idx, tier):
         u = np.array(c['M'])[:, :nx] @ x0 + np.array(c['v'])
         spec['expected'] = c['mult'] * float(np.sum(AT.value(c['atom'], u, c['params'])))
     else:
-        cones = ['X', 'X', 'LQX'][int(rng.integers(3))]
+        cones = ['X', 'X', 'LQX', 'LQX'][int(rng.integers(4))]
         spec = D.gen(rng, tier, cones=cones, ints=bool(rng.random() < 0.35),
                      atom=atom if rng.random() < 0.6 else None)
         # keep every exponential argument in range
@@ -198,7 +198,8 @@ def run_case(spec, ctx):
         return {'status': 'skip', 'reason': 'no exponential cone in the program'}
     feats = {'front': spec['front'], 'atoms': sorted({c['atom'] for c in spec['cvx']}),
              'mode': spec['mode'], 'degrees': spec['degrees'], 'ncones': len(f.xmat),
-             'has_soc': bool(f.qmat)}
+             'has_soc': bool(f.qmat),
+             'special': sorted({s_['kind'] for s_ in spec.get('special', [])})}
     detail = []
     fp0 = C.fingerprint(f)
     f_copy = copy.deepcopy(f)
